@@ -25,15 +25,20 @@ DRIVER = "dm_dfrows"
 LEAN_MODULES = ["DaskModel.Props.C43"]
 CASE_TIMEOUT_S = 60
 LEVEL_TEXT = (
-    "Partial. Proved in Lean: a normal form for relational expressions over one source (FromPandas root, Projection "
-    "list/scalar, Filter, Assign, Binop subclasses, Invert, literals) is sound (nf_sound), equality of normal forms up to the "
-    "SET of filter conjuncts implies equal results (equiv_sound / checkStep_sound), hence every optimizer trace whose steps "
-    "the checker accepts preserves the result (checkTrace_sound, idempotent_result). This covers uniformly projection "
-    "pushdown through filter/assign/elemwise, projection collapse, filter pushdown/squashing, assign shadowing and dropping of "
-    "unused assigns. Validated, not proved: that the real optimizer only performs accepted steps (every recorded step of the "
-    "real simplify/lower/simplify trace inside the fragment is checked on each run; steps touching other classes are "
-    "counted), blockwise fusion and lowering of other classes (compared by value against pandas and against the "
-    "unoptimised graph), convergence of the whole optimizer (observed: no RuntimeError, re-optimising is a fixed point).")
+    "Partial. Proved in Lean: (1) a normal form for relational expressions over one source (FromPandas/FromMap root, Projection "
+    "list/scalar, Filter, Assign, Binop subclasses, Invert, literals) is sound (nf_sound); equality of normal forms up to the "
+    "SET of filter conjuncts or their truth table implies equal results (equiv_sound / checkStep_sound), hence every optimizer "
+    "trace whose steps the checker accepts preserves the result (checkTrace_sound, idempotent_result): uniformly projection "
+    "pushdown through filter/assign/elemwise, projection collapse, filter pushdown/squashing, assign shadowing, dropping of "
+    "unused assigns. (2) rewrite_filters / _replace_common_or_components (the OR-of-AND rewrite of Filter._simplify_up) is "
+    "MODELLED as a function and proved sound for every predicate and truth assignment (rewriteFilters_sound) with a "
+    "termination measure (rewriteFilters_size: it leaves the predicate alone or returns a strictly smaller one). "
+    "Validated, not proved: that the real optimizer only performs accepted steps (every recorded step of the real "
+    "simplify/lower/simplify trace inside the fragment is checked on each run), that the real rewrite_filters IS the modelled "
+    "function (diffed on OR-of-AND predicates with shared conjuncts / absorbing clauses in every position), projection "
+    "pushdown through merge/concat/groupby, Len/Lengths shortcuts, blockwise fusion and lowering of other classes (by value "
+    "against pandas and the unoptimised graph), convergence of the whole optimizer (observed: no RuntimeError, "
+    "re-optimising is a fixed point).")
 LEVEL_NOTE = ("Trusted: Lean kernel; the translator from dask expression objects to the model AST (harness); pandas as value "
               "oracle; integer-cell encoding; pyarrow stub.")
 TECHNIQUE = "Lean 4 proved-sound equivalence checker (normal forms) + validation of real optimizer traces + 4-way differential (optimised / unfused / unsimplified / pandas)"
@@ -503,7 +508,39 @@ def case_orrewrite(ctx, inp):
         ctx.branch("orrw-through-copy")
 
 
-CASES = {"trace": case_trace, "api": case_api, "orrewrite": case_orrewrite}
+def case_orrewrite_fn(ctx, inp):
+    """function level only (no computation): exhaustive small OR-of-AND predicates"""
+    import pandas as pd
+    from dask.dataframe.dask_expr._expr import rewrite_filters
+    df = pd.DataFrame({"a": [1, 2, 3, 4], "b": [0, 1, 0, 1], "c": [5, 6, 7, 8]})
+    d = U.dd().from_pandas(df, npartitions=2)
+    atoms = [["a", "gt", 1, 0, False], ["b", "eq", 1, 0, False], ["c", "lt", 7, 0, False]]
+    clauses = inp["clauses"]
+
+    def fold(kind, items, right):
+        items = list(items)
+        while len(items) > 1:
+            if right:
+                items[-2:] = [[kind, items[-2], items[-1]]]
+            else:
+                items[:2] = [[kind, items[0], items[1]]]
+        return items[0]
+    tree = fold("or", [fold("and", [["atom", a] for a in c], inp["right"]) for c in clauses], inp["right"])
+    pred = _pred_build([d], atoms, tree)
+    names = {_pred_build([d], atoms, ["atom", i]).expr._name: i for i in range(len(atoms))}
+    got = _pred_of_expr(rewrite_filters(pred.expr), names)
+    model = _sexp_to_tree(ctx.lean(Sym("rewritefilters"), _pred_sexp(tree)))
+    ctx.eq("rewrite_filters (exhaustive small predicates)", model, got)
+    before, after = _pred_build([df], atoms, tree), _pred_build([df], atoms, got)
+    if list(before) != list(after):
+        ctx.fail("rewrite_filters changed the rows the predicate selects", observed=[bool(v) for v in after],
+                 expected=[bool(v) for v in before])
+    ctx.branch("orrw-fn-%d-clauses" % len(clauses))
+    if model != tree:
+        ctx.branch("orrw-fn-rewritten")
+
+
+CASES = {"trace": case_trace, "api": case_api, "orrewrite": case_orrewrite, "orrewrite_fn": case_orrewrite_fn}
 
 
 # ------------------------------------------------------------------------------------------------
@@ -650,9 +687,17 @@ def gen_orrewrite(rng):
 
 def generate(ctx):
     rng = ctx.rng
-    for _ in range(ctx.n(90, 1500)):
+    for _ in range(ctx.n(70, 1500)):
         yield "orrewrite", gen_orrewrite(rng)
-    for _ in range(ctx.n(170, 2500)):
+    # exhaustive small space: every list of 2 (thorough: also 3) clauses over the non-empty conjunct lists of <= 2 of 3 atoms
+    import itertools
+    small = [list(c) for n in (1, 2) for c in itertools.permutations(range(3), n)] + [[0, 0], [1, 2, 1]]
+    for k in ((2,) if not ctx.thorough() else (2, 3)):
+        for cl in itertools.product(small, repeat=k):
+            if rng.random() < (0.5 if ctx.thorough() else 0.55):
+                continue
+            yield "orrewrite_fn", {"clauses": [list(c) for c in cl], "right": rng.random() < 0.5}
+    for _ in range(ctx.n(140, 2500)):
         inp, names = gen_frame(rng)
         inp["prog"] = gen_assign_chain(rng, names) if rng.random() < 0.3 else gen_prog(rng, names, rng.randint(1, 5))
         inp["parts"] = rng.random() < 0.7
